@@ -277,6 +277,29 @@ def run(ctx):
             judge(ctx, {"kind": "word", "basis": basis, "prog": prog, "scenario": si, "word": word}, prog, expected[si], out)
             events.append({"ev": "Run", "b": bi, "t": 0})
             events += [dict({"k": 0, "size": 0}, **e) for e in out["events"]]
+    # waits on the class lock that are bounded (a timeout, a non-blocking attempt): the same one-preemption exploration with
+    # every such wait expiring while another thread holds the lock - a schedule in which the holder is slow
+    if sch.saw_bounded:
+        sch.expire_bounded = True
+        nexp = 0
+        for si, (basis, prog) in enumerate(scen):
+            order = list(range(1, len(prog) + 1))
+
+            def fns_exp(av):
+                return {t + 1: (lambda th=th: [real_call(av, c) for c in th]) for t, th in enumerate(prog)}
+            for first in order:
+                av = fresh(basis)
+                n = sch.run(av, fns_exp(av), sched.preempt_policy(order, first, 10 ** 9))["steps"][first]
+                for j in sorted({int(x * n / 40) for x in range(40)} | {0, 1, 2, n - 1}):
+                    av = fresh(basis)
+                    out = sch.run(av, fns_exp(av), sched.preempt_policy(order, first, j))
+                    nruns += 1
+                    nexp += 1
+                    ctx.case(("sched-expiring", si, first, j), nontrivial=True)
+                    judge(ctx, {"kind": "schedule", "basis": basis, "prog": prog, "scenario": si, "first": first, "j": j,
+                                "bounded_waits_expire": True}, prog, expected[si], out)
+        sch.expire_bounded = False
+        ctx.note("runs_with_expiring_bounded_waits", nexp)
     # thorough tier: opcode granularity (f_trace_opcodes) for the first scenarios, strided preemption points
     if not quick:
         sch_op = sched.Scheduler(opcodes=True)
@@ -345,6 +368,7 @@ def replay(ctx, path):
     ctx.add_tlc(r, "replay model")
     expected = [x for x in r.records if "expected" in x][0]["expected"]
     sch = sched.Scheduler(opcodes=bool(case.get("opcodes")))
+    sch.expire_bounded = bool(case.get("bounded_waits_expire"))
     av = fresh(basis)
     order = list(range(1, len(prog) + 1))
     fns = {t + 1: (lambda th=th: [real_call(av, c) for c in th]) for t, th in enumerate(prog)}
